@@ -26,6 +26,10 @@ func (httpClient) Do(req *http.Request) (*http.Response, error) {
 	}
 	h := http.Header{"Content-Type": []string{"application/json"}, "X-H": []string{"abcdefghijkl"}}
 	body := `{"token":"t","list":[1,2],"html":"<title>T</title>"}`
+	if req.URL.Query().Get("u") == "12" {
+		// the answer to the second data row fails the step's assertion: the shot ends with a failed step
+		body = `{"tok":"t"}`
+	}
 	if strings.HasSuffix(req.URL.Path, "/x") {
 		body = `<html><head><title>T</title></head><body><a href="x">l</a>json</body></html>`
 	}
